@@ -37,7 +37,7 @@ def configs(tier):
     def add(ws, cpol, cpha, msb=True, h=2, **kw):
         out.append(dict(word_size=ws, cpol=cpol, cpha=cpha, msb_first=msb, h=h, **kw))
     if tier == "quick":
-        add(3, 0, 1, cs_offsets=True); add(2, 1, 0, h=3, cs_offsets=True); add(4, 0, 0, cs_offsets=True, max_words=2)
+        add(3, 0, 1, cs_offsets=True); add(2, 1, 0, h=3, cs_offsets=True); add(4, 0, 0, cs_offsets=True)
         add(3, 0, 0, h=3); add(4, 1, 1); add(5, 1, 0); add(5, 0, 1, msb=False, h=3)
         add(7, 1, 1, narrow=True); add(8, 0, 0, msb=False); add(8, 0, 1, h=3); add(12, 0, 1); add(12, 1, 0, h=3)
         add(16, 1, 1); add(16, 0, 0, narrow=True); add(6, 0, 1, cs_idles_high=True); add(2, 0, 1); add(1, 0, 0)
